@@ -45,10 +45,30 @@ Theorem C09b_passes : forall indexed defs ps budget r,
   assemble2 indexed defs ps budget = Ok r -> (r_iters r <= budget)%nat.
 Proof. exact assemble2_passes. Qed.
 
+(* mode agreement, exact form: from a state on which the strict pass is resolved the guessing pass leaves the same state;
+   it reports Resolved -- unless the program has an #assert directive, which reports Unresolved before the last pass by
+   design (its condition is not even evaluated) *)
 Theorem C09b_mode_agree : forall m banks defs mb ns st st',
   run_pass m banks defs mb true ns st = Ok (st', Resolved) ->
-  run_pass m banks defs mb false ns st = Ok (st', Resolved).
+  run_pass m banks defs mb false ns st = Ok (st', if has_assert ns then Unresolved else Resolved).
 Proof. exact run_pass_agree. Qed.
+
+Theorem C09b_mode_agree_no_assert : forall m banks defs mb ns st st', has_assert ns = false ->
+  run_pass m banks defs mb true ns st = Ok (st', Resolved) ->
+  run_pass m banks defs mb false ns st = Ok (st', Resolved).
+Proof. exact run_pass_agree_no_assert. Qed.
+
+(* with an #assert directive the loop cannot stop early: a successful assembly reports exactly `budget` passes
+   (monotonicity, C09b_monotone, and n <= budget, C09b_passes, hold with asserts unchanged) *)
+Theorem C09b_assert_runs_to_budget : forall indexed defs ps budget r m ns banks st1,
+  setup indexed defs ps = Some (m, ns, banks, st1) -> has_assert ns = true -> (1 <= budget)%nat ->
+  assemble2 indexed defs ps budget = Ok r -> r_iters r = budget.
+Proof. exact assemble2_assert_count. Qed.
+
+Example C09b_assert_nonvacuous :
+  (exists r, assemble2 true [] (ex_assert_addr 1) 3 = Ok r /\ r_iters r = 3%nat) /\
+  assemble2 true [] (ex_assert_addr 2) 3 = Err /\ assemble2 true [] (ex_assert_addr 1) 1 = Err.
+Proof. exact assert_address_nonvacuous. Qed.
 
 Theorem C09b_address_mode_agree : forall mb b pos a,
   Cursor.eval_address mb b pos false = Ok a -> Cursor.eval_address mb b pos true = Ok a.
